@@ -207,6 +207,7 @@ static void scenario(unsigned policy, struct stats *st)
 		for(unsigned i = 0; i <= P; ++i) {
 			unsigned w = 2;
 			if(i == 0) w = policy == 2 ? 8 : policy == 3 ? 1 : 2;          /* eager / lazy consumer */
+			if(i == 0 && policy == 5) w = producers_done ? 2 : 0;        /* consumer absent while a large backlog builds up */
 			else if(policy == 4) w = vs_point(i) == VP_QUEUE_INSERT_LOADED ? 1 : 6; /* widen load..CAS windows */
 			vs_weight[i] = w;
 		}
@@ -294,12 +295,17 @@ int main(int argc, char **argv)
 	f_or = xfopen(argv[5], "a");
 	vrng_state = seed * 0x100000001b3ULL + 15;
 	struct stats tot = {0};
-	unsigned long hist_p[5] = {0}, hist_pol[5] = {0}, crashes = 0, done_scen = 0;
+	unsigned long hist_p[5] = {0}, hist_pol[6] = {0}, crashes = 0, done_scen = 0;
 	for(unsigned long sc = 0; sc < n_scen; ++sc) {
 		P = 1 + (unsigned)vrng_below(4);
 		for(unsigned p = 0; p < P; ++p)
 			n_per_prod[p] = 1 + (unsigned)vrng_below(vrng_below(3) ? 6 : 20);
 		unsigned policy = (unsigned)vrng_below(5);
+		if(sc % 25 == 7) {
+			/* burst: several hundred messages buffered for the consumer before its first queue operation */
+			policy = 5;
+			n_per_prod[0] = 280 + (unsigned)vrng_below(400);
+		}
 		uint64_t sub = vrng();
 		hist_p[P]++;
 		hist_pol[policy]++;
@@ -339,10 +345,10 @@ int main(int argc, char **argv)
 	printf("{\"scenarios\":%lu,\"steps\":%lu,\"messages\":%lu,\"loads\":%lu,\"cas_ok\":%lu,\"cas_fail\":%lu,"
 	       "\"extracts\":%lu,\"extract_null\":%lu,\"peeks\":%lu,\"hangs\":%lu,\"crashes\":%lu,\"oracle_violations\":%lu,"
 	       "\"producers_hist\":{\"1\":%lu,\"2\":%lu,\"3\":%lu,\"4\":%lu},"
-	       "\"policy_hist\":{\"uniform\":%lu,\"sticky\":%lu,\"eager_consumer\":%lu,\"lazy_consumer\":%lu,\"wide_cas_window\":%lu}}\n",
+	       "\"policy_hist\":{\"uniform\":%lu,\"sticky\":%lu,\"eager_consumer\":%lu,\"lazy_consumer\":%lu,\"wide_cas_window\":%lu,\"burst_before_first_consumer_op\":%lu}}\n",
 	    done_scen, tot.steps, tot.msgs, tot.loads, tot.cas_ok, tot.cas_fail, tot.extracts, tot.extract_null,
 	    tot.peeks, tot.hang, crashes, tot.viol, hist_p[1], hist_p[2], hist_p[3], hist_p[4], hist_pol[0], hist_pol[1],
-	    hist_pol[2], hist_pol[3], hist_pol[4]);
+	    hist_pol[2], hist_pol[3], hist_pol[4], hist_pol[5]);
 	fclose(f_ops); fclose(f_c); fclose(f_or);
 	return 0;
 }
